@@ -153,15 +153,25 @@ func (tps *TPS) KeyGen(ctx context.Context) ([]byte, error) {
 	// We then distribute the polynomial evaluations (shares) to all parties.
 	// Each party 'i' gets P(i).
 	tps.shareDistribution(ctx, xShares, yShares)
+	if err := ctx.Err(); err != nil {
+		return nil, fmt.Errorf("did not receive shares from all parties: %w", err)
+	}
 
 	// Having received all shares, we combine all shares received from all parties by adding them.
 	pk := tps.combineShares()
 	pkBytes := pk.Bytes()
 
 	tps.commitPhase(ctx, pkBytes)
+	if err := ctx.Err(); err != nil {
+		return nil, fmt.Errorf("did not receive commitments from all parties: %w", err)
+	}
 
 	// Now we de-commit, and wait for everyone else to de-commit thus revealing their public key.
 	tps.revealPhase(ctx, pkBytes)
+	if err := ctx.Err(); err != nil {
+		return nil, fmt.Errorf("did not receive public keys from all parties: %w", err)
+	}
+
 	// Next, we ensure the commitments we received match the de-commitments
 	if err := tps.validateCommitments(); err != nil {
 		return nil, err
